@@ -447,6 +447,16 @@ func (vc *VC) mergeStates(fr *Frame, b *ssa.BasicBlock, ins []edgeIn, phiVals ma
 			names[k] = true
 		}
 	}
+	if !same {
+		// the incoming states went through different havocs: materialise every memory component known
+		// so far in each of them, so that a component first read after the join keeps, on each path,
+		// the value it had on that path
+		for k := range vc.memSorts {
+			if !strings.HasPrefix(k, "L_") {
+				names[k] = true
+			}
+		}
+	}
 	var nl []string
 	for k := range names {
 		nl = append(nl, k)
@@ -470,9 +480,17 @@ func (vc *VC) mergeStates(fr *Frame, b *ssa.BasicBlock, ins []edgeIn, phiVals ma
 	}
 	if same {
 		out.gen = gen
+		// same generation: an unmaterialised component resolves to the same constant on every path,
+		// unless one of the incoming states is itself a lazy join
+		for _, in := range ins {
+			if len(in.st.parents) > 0 {
+				out.parents = ins
+			}
+		}
 	} else {
 		vc.ngen++
 		out.gen = vc.ngen
+		out.parents = ins
 	}
 	var a Term
 	for i := len(ins) - 1; i >= 0; i-- {
